@@ -241,6 +241,15 @@ func (c *Compiler) compileLiteral(re *syntax.Regexp) (start, end StateID, err er
 		return c.compileEmptyMatch()
 	}
 
+	// A surrogate code point (U+D800-U+DFFF) has no UTF-8 encoding: decoding the
+	// haystack never yields one (the bytes ED A0..BF xx are three invalid bytes),
+	// so a literal that contains a surrogate cannot match anything.
+	for _, r := range runes {
+		if isSurrogate(r) {
+			return c.compileNoMatch()
+		}
+	}
+
 	// Check if case-insensitive matching is enabled
 	foldCase := re.Flags&syntax.FoldCase != 0
 
@@ -366,6 +375,12 @@ func (c *Compiler) compileSingleRune(r rune) (start, end StateID, err error) {
 	return first, prev, nil
 }
 
+// isSurrogate reports whether r is a UTF-16 surrogate code point (U+D800-U+DFFF).
+// Surrogates are not Unicode scalar values and cannot appear in UTF-8 text.
+func isSurrogate(r rune) bool {
+	return r >= 0xD800 && r <= 0xDFFF
+}
+
 // isASCIILetter checks if a rune is an ASCII letter (a-z, A-Z)
 func isASCIILetter(r rune) bool {
 	return (r >= 'a' && r <= 'z') || (r >= 'A' && r <= 'Z')
@@ -467,17 +482,27 @@ func (c *Compiler) compileUnicodeClass(ranges []rune) (start, end StateID, err e
 		}
 	}
 
-	// Build alternation of all characters in ranges (small classes only)
+	// Build alternation of all characters in ranges (small classes only).
+	// Surrogates are skipped: they have no UTF-8 encoding and match nothing
+	// (compileUnicodeClassLarge excludes them the same way).
 	var alts []*syntax.Regexp
 	for i := 0; i < len(ranges); i += 2 {
 		lo := ranges[i]
 		hi := ranges[i+1]
 		for r := lo; r <= hi; r++ {
+			if isSurrogate(r) {
+				continue
+			}
 			alts = append(alts, &syntax.Regexp{
 				Op:   syntax.OpLiteral,
 				Rune: []rune{r},
 			})
 		}
+	}
+
+	if len(alts) == 0 {
+		// Only surrogates: the class can never match
+		return c.compileNoMatch()
 	}
 
 	if len(alts) == 1 {
